@@ -304,7 +304,7 @@ def crash_signature(rc, stderr):
     """A short, stable summary of a sanitizer / assertion abort."""
     for line in stderr.splitlines():
         if line.startswith("POOL-STUCK"):
-            return "non-termination: worker pool provably stuck (%s)" % ("lost wake-up" if "lost wake-up" in line else "pause() never completes")
+            return "non-termination: worker pool provably stuck (%s)" % ("lost wake-up" if "lost wake-up" in line else "pause() never completes" if "spins in pause()" in line else "join never returns" if "join()" in line else "job handed to nobody")
     if rc == -999 or rc == 88:
         return "non-termination (case watchdog)"
     for line in stderr.splitlines():
